@@ -280,6 +280,9 @@ func c05Case(c *core.Ctx, idx int) {
 		}
 	}
 	// consequence: every Marshal output walks, recursively, to its precise end
+	if idx%8 == 5 && tc.typ.Kind() == reflect.Struct {
+		sizedBodies(c, idx, tc, (&gen.VG{R: rv, C: tc.cfg, Budget: 60}).Value(tc.typ, ""), modeC02)
+	}
 	var seenVals []reflect.Value
 	var seenRefs [][]byte
 	defer func() {
